@@ -192,10 +192,11 @@ Lemma build_listener_kind : forall d l b, build_listener d l = Ok b -> l_addr b 
 Proof.
   intros d l b H. unfold build_listener in H.
   destruct (ld_proto l =? 0) eqn:E0.
-  - destruct (negb (ld_hsts l =? -1)); [discriminate|]. inversion H; subst. cbn. apply Z.eqb_eq in E0.
+  - destruct (negb (ld_hsts l =? -1)); [discriminate|]. destruct (negb (sid_ok l)); [discriminate|]. inversion H; subst. cbn. apply Z.eqb_eq in E0.
     repeat split; [left; reflexivity|intros _; now symmetry].
   - destruct (ld_proto l =? 1) eqn:E1.
-    + destruct (resolve_alpn l); [|discriminate]. destruct (ld_hsts l =? 2); [discriminate|]. inversion H; subst. cbn.
+    + destruct (resolve_alpn l); [|discriminate]. destruct (listener_cert_check l); [discriminate|].
+      destruct (negb (sid_ok l)); [discriminate|]. destruct (ld_hsts l =? 2); [discriminate|]. inversion H; subst. cbn.
       apply Z.eqb_eq in E1. repeat split; [right; left; reflexivity|intros _; now symmetry].
     + destruct (ld_proto l =? 2) eqn:E2; inversion H; subst; cbn.
       * apply Z.eqb_eq in E2. repeat split; [right; right; left; reflexivity|intros _; now symmetry].
@@ -246,6 +247,7 @@ Proof.
     destruct (http_fronts_conv cid fs) as [xs'|e]; [|discriminate]. inversion H; subst.
     constructor; [|now apply IH]. unfold http_front_conv in E.
     destruct (fd_host f); [|discriminate]. destruct (fd_cert f =? -5); [discriminate|].
+    destruct (fd_cert f =? -6); [discriminate|].
     destruct (Bool.eqb (fd_key f) (negb (fd_cert f =? -1))) eqn:Ep; [|discriminate]. cbn [negb] in E.
     destruct (negb (fd_hsts f =? -1) && negb (fd_key f && negb (fd_cert f =? -1))); [discriminate|].
     destruct (fd_hsts f =? 2); [discriminate|]. inversion E; subst. cbn [fst snd]. now apply Bool.eqb_prop.
